@@ -64,18 +64,25 @@ fn well_formed(s: &Slot) -> bool {
 
 // ---- try_write_reader (write_reader_append / write_reader_split) ---------------------------------------------------
 
-//@ harness props=C16,C01 tier=quick level=bounded bound="slot buffer 8 bytes with 0 bytes filled, request <= 4 bytes; all offsets and bytes symbolic" timeout=900 mem=12
+//@ harness props=C16,C01 tier=thorough level=bounded bound="slot buffer 8 bytes with 0 bytes filled, request <= 4 bytes; all offsets and bytes symbolic" timeout=2400 mem=12
 //@ fn Slot::try_write_reader
 //@ fn Slot::write_reader_append
 //@ fn Slot::write_reader_split
 #[kani::proof]
-#[kani::unwind(10)]
+#[kani::unwind(3)]
 fn vq_c16_slot_try_write_reader_fill0() {
-    try_write_step(0);
+    try_write_step(0, ANY);
 }
 
+/// position of the request relative to the filled part of the slot: one harness per class for the partially filled
+/// slots (all classes in one harness did not finish in 20 minutes), `ANY` for the empty and the full slot
+const ANY: u8 = 0;
+const OVERLAP: u8 = 1; // request starts inside the filled bytes (duplicate prefix is trimmed)
+const APPEND: u8 = 2; // request starts exactly at the end of the filled bytes
+const GAP: u8 = 3; // request starts behind a gap (split) or beyond the allocation
+
 /// one `try_write_reader` call on a slot with `k0` of its 8 bytes filled (shape concrete, everything else symbolic)
-fn try_write_step(k0: usize) {
+fn try_write_step(k0: usize, class: u8) {
     let mut slot = any_slot_filled(k0);
     let old = view(&slot);
     // witness stream offset: inside or just behind the allocation (slot_inv keeps every byte of the slot and of the
@@ -100,6 +107,13 @@ fn try_write_step(k0: usize) {
     // off + len <= 2^62-1 is the invariant of `Request::new`
     kani::assume(len <= DLEN && off >= slot.start && off <= MAXV - len as u64);
     kani::assume(!far || off > slot.start + (CAP + 2) as u64);
+    let end = slot.start + k0 as u64;
+    kani::assume(match class {
+        OVERLAP => off < end,
+        APPEND => off == end,
+        GAP => off > end,
+        _ => true,
+    });
     let mut req = Request::new(VarInt::new(off).unwrap(), &data[..len], fin).unwrap();
     let r = ReqV { off: off as i128, len: len as i128 };
     assert!(slot_write_pre(old, r), "C16/slot.try_write_reader/builder_establishes_pre");
@@ -126,18 +140,24 @@ fn try_write_step(k0: usize) {
     assert!(well_formed(&slot), "C16/slot.try_write_reader/inv_preserved");
     assert!(req.final_offset() == final_before, "C16/slot.try_write_reader/reader_fin_unchanged");
     let mut new_w = byte_at(&slot, w);
-    if let Some(f) = filled.as_ref() {
-        assert!(slot_write_filled(old, r, view(f)), "C16/slot.try_write_reader/filled_view");
-        assert!(well_formed(f), "C16/slot.try_write_reader/filled_inv");
-        // the two halves stay adjacent in memory: what `unsplit` later relies on
-        assert!(
-            unsafe { slot.data.as_ptr().add(slot.data.capacity()) } == f.data.as_ptr(),
-            "C16/slot.try_write_reader/halves_adjacent_in_memory"
-        );
-        if new_w.is_none() {
-            new_w = byte_at(f, w);
+    // the split-off slot (obligations hold trivially when the call does not split)
+    let (f_view, f_inv, f_adjacent) = match filled.as_ref() {
+        Some(f) => {
+            if new_w.is_none() {
+                new_w = byte_at(f, w);
+            }
+            (
+                slot_write_filled(old, r, view(f)),
+                well_formed(f),
+                // the two halves stay adjacent in memory: what `unsplit` later relies on
+                unsafe { slot.data.as_ptr().add(slot.data.capacity()) } == f.data.as_ptr(),
+            )
         }
-    }
+        None => (true, true, true),
+    };
+    assert!(f_view, "C16/slot.try_write_reader/filled_view");
+    assert!(f_inv, "C16/slot.try_write_reader/filled_inv");
+    assert!(f_adjacent, "C16/slot.try_write_reader/halves_adjacent_in_memory");
     // content: stored bytes never change, the new bytes are the request's, nothing else appears
     let wi = w as i128;
     let expect = if old_w.is_some() {
@@ -155,60 +175,100 @@ fn try_write_step(k0: usize) {
     };
     assert!(rest.len() as i128 == rnew.len, "C16/slot.try_write_reader/reader_rest_len");
     let j: usize = kani::any();
-    if j < rest.len() {
-        assert!(rest[j] == data[(rnew.off - r.off) as usize + j], "C16/slot.try_write_reader/reader_rest_bytes");
-    }
+    assert!(j >= rest.len() || rest[j] == data[(rnew.off - r.off) as usize + j], "C16/slot.try_write_reader/reader_rest_bytes");
 
-    // reachability of every branch; a scenario that cannot occur at this (concrete) fill level counts as covered
+    // reachability of every branch; a scenario that cannot occur at this (concrete) fill level / request class counts
+    // as covered
     let partial = k0 < CAP;
     let some = k0 > 0;
-    let gap_possible = k0 + 2 <= CAP;
-    kani::cover!(!partial || (filled.is_none() && n > 0 && t.off == r.off), "reach:append");
-    kani::cover!(!(partial && some) || (filled.is_none() && n > 0 && t.off > r.off), "reach:append_after_trimming_overlap");
+    let cls = |c: u8| class == ANY || class == c;
+    let gap_possible = k0 + 2 <= CAP && cls(GAP);
+    kani::cover!(!(partial && cls(APPEND)) || (filled.is_none() && n > 0 && t.off == r.off), "reach:append");
+    kani::cover!(!(partial && some && cls(OVERLAP)) || (filled.is_none() && n > 0 && t.off > r.off), "reach:append_after_trimming_overlap");
     kani::cover!(!gap_possible || (filled.is_some() && n == len as i128), "reach:split_whole_request");
     kani::cover!(!gap_possible || (filled.is_some() && rnew.len > 0), "reach:split_truncated_at_end_of_allocation");
     kani::cover!(
-        !(partial && CAP - k0 < DLEN) || (filled.is_none() && n > 0 && rnew.len > 0),
+        !(partial && CAP - k0 < DLEN && (cls(APPEND) || cls(OVERLAP))) || (filled.is_none() && n > 0 && rnew.len > 0),
         "reach:append_truncated_at_end_of_allocation"
     );
     kani::cover!(partial || (slot_is_full(old) && rnew.len > 0), "reach:already_full");
-    kani::cover!(!partial || (n == 0 && t.len > 0), "reach:request_beyond_allocation");
-    kani::cover!(!some || (n == 0 && t.len == 0 && len > 0), "reach:request_entirely_duplicate");
+    kani::cover!(!(partial && cls(GAP)) || (n == 0 && t.len > 0), "reach:request_beyond_allocation");
+    kani::cover!(!(some && cls(OVERLAP)) || (n == 0 && t.len == 0 && len > 0), "reach:request_entirely_duplicate");
     kani::cover!(len == 0, "reach:empty_request");
-    kani::cover!(!partial || (flag && !flag_old), "reach:flag_raised");
+    kani::cover!(!(partial && (cls(GAP) || CAP - k0 <= DLEN)) || (flag && !flag_old), "reach:flag_raised");
     kani::cover!(!(partial && some) || (old_w.is_some() && n > 0), "reach:witness_in_old_bytes");
     kani::cover!(!partial || (old_w.is_none() && new_w.is_some()), "reach:witness_in_new_bytes");
-    kani::cover!(slot_end(old) == MAXV as i128, "reach:filled_up_to_max_offset");
+    kani::cover!(class == GAP || slot_end(old) == MAXV as i128, "reach:filled_up_to_max_offset");
     kani::cover!(!partial || old.end_alloc > MAXV as i128, "reach:allocation_reaches_beyond_max_offset");
-    kani::cover!(far && n == 0 && rnew.len == len as i128, "reach:far_request_untouched");
+    kani::cover!(!cls(GAP) || (far && n == 0 && rnew.len == len as i128), "reach:far_request_untouched");
 }
 
-//@ harness props=C16,C01 tier=quick level=bounded bound="slot buffer 8 bytes with 3 bytes filled, request <= 4 bytes; all offsets and bytes symbolic" timeout=900 mem=12
+//@ harness props=C16,C01 tier=thorough level=bounded bound="slot buffer 8 bytes with 3 bytes filled, request <= 4 bytes starting inside the filled bytes; all offsets and bytes symbolic" timeout=1500 mem=12
 //@ fn Slot::try_write_reader
 //@ fn Slot::write_reader_append
 //@ fn Slot::write_reader_split
 #[kani::proof]
-#[kani::unwind(10)]
-fn vq_c16_slot_try_write_reader_fill3() {
-    try_write_step(3);
+#[kani::unwind(3)]
+fn vq_c16_slot_try_write_reader_fill3_overlap() {
+    try_write_step(3, OVERLAP);
 }
 
-//@ harness props=C16,C01 tier=quick level=bounded bound="slot buffer 8 bytes with 6 bytes filled, request <= 4 bytes; all offsets and bytes symbolic" timeout=900 mem=12
+//@ harness props=C16,C01 tier=thorough level=bounded bound="slot buffer 8 bytes with 3 bytes filled, request <= 4 bytes starting at the end of the filled bytes; all offsets and bytes symbolic" timeout=1500 mem=12
 //@ fn Slot::try_write_reader
 //@ fn Slot::write_reader_append
 //@ fn Slot::write_reader_split
 #[kani::proof]
-#[kani::unwind(10)]
-fn vq_c16_slot_try_write_reader_fill6() {
-    try_write_step(6);
+#[kani::unwind(3)]
+fn vq_c16_slot_try_write_reader_fill3_append() {
+    try_write_step(3, APPEND);
 }
 
-//@ harness props=C16,C01 tier=quick level=bounded bound="full slot (8 of 8 bytes), request <= 4 bytes; all offsets and bytes symbolic" timeout=900 mem=12
+//@ harness props=C16,C01 tier=thorough level=bounded bound="slot buffer 8 bytes with 3 bytes filled, request <= 4 bytes starting behind a gap or beyond the allocation; all offsets and bytes symbolic" timeout=1500 mem=12
+//@ fn Slot::try_write_reader
+//@ fn Slot::write_reader_append
+//@ fn Slot::write_reader_split
+#[kani::proof]
+#[kani::unwind(3)]
+fn vq_c16_slot_try_write_reader_fill3_gap() {
+    try_write_step(3, GAP);
+}
+
+//@ harness props=C16,C01 tier=thorough level=bounded bound="slot buffer 8 bytes with 6 bytes filled, request <= 4 bytes starting inside the filled bytes; all offsets and bytes symbolic" timeout=1500 mem=12
+//@ fn Slot::try_write_reader
+//@ fn Slot::write_reader_append
+//@ fn Slot::write_reader_split
+#[kani::proof]
+#[kani::unwind(3)]
+fn vq_c16_slot_try_write_reader_fill6_overlap() {
+    try_write_step(6, OVERLAP);
+}
+
+//@ harness props=C16,C01 tier=thorough level=bounded bound="slot buffer 8 bytes with 6 bytes filled, request <= 4 bytes starting at the end of the filled bytes; all offsets and bytes symbolic" timeout=1500 mem=12
+//@ fn Slot::try_write_reader
+//@ fn Slot::write_reader_append
+//@ fn Slot::write_reader_split
+#[kani::proof]
+#[kani::unwind(3)]
+fn vq_c16_slot_try_write_reader_fill6_append() {
+    try_write_step(6, APPEND);
+}
+
+//@ harness props=C16,C01 tier=thorough level=bounded bound="slot buffer 8 bytes with 6 bytes filled, request <= 4 bytes starting behind a gap or beyond the allocation; all offsets and bytes symbolic" timeout=1500 mem=12
+//@ fn Slot::try_write_reader
+//@ fn Slot::write_reader_append
+//@ fn Slot::write_reader_split
+#[kani::proof]
+#[kani::unwind(3)]
+fn vq_c16_slot_try_write_reader_fill6_gap() {
+    try_write_step(6, GAP);
+}
+
+//@ harness props=C16,C01 tier=thorough level=bounded bound="full slot (8 of 8 bytes), request <= 4 bytes; all offsets and bytes symbolic" timeout=1500 mem=12
 //@ fn Slot::try_write_reader
 #[kani::proof]
-#[kani::unwind(10)]
+#[kani::unwind(3)]
 fn vq_c16_slot_try_write_reader_full() {
-    try_write_step(8);
+    try_write_step(8, ANY);
 }
 
 // ---- unsplit -------------------------------------------------------------------------------------------------------
@@ -216,7 +276,7 @@ fn vq_c16_slot_try_write_reader_full() {
 //@ harness props=C16,C01 tier=quick level=bounded bound="two adjacent slots carved from one 8-byte buffer at split point 3, second one filled to the end; offsets, bytes symbolic" timeout=600 mem=12
 //@ fn Slot::unsplit
 #[kani::proof]
-#[kani::unwind(10)]
+#[kani::unwind(3)]
 fn vq_c16_slot_unsplit_full() {
     unsplit_step(3, 5);
 }
@@ -255,7 +315,7 @@ fn unsplit_step(m: usize, kb: usize) {
 //@ harness props=C16,C01 tier=quick level=bounded bound="two adjacent slots carved from one 8-byte buffer at split point 5, second one partially filled (2 of 3); offsets, bytes symbolic" timeout=600 mem=12
 //@ fn Slot::unsplit
 #[kani::proof]
-#[kani::unwind(10)]
+#[kani::unwind(3)]
 fn vq_c16_slot_unsplit_partial() {
     unsplit_step(5, 2);
 }
@@ -266,7 +326,7 @@ fn vq_c16_slot_unsplit_partial() {
 //@ fn Slot::skip_until
 //@ fn Slot::skip
 #[kani::proof]
-#[kani::unwind(10)]
+#[kani::unwind(3)]
 fn vq_c16_slot_skip_until() {
     let mut slot = any_slot();
     let old = view(&slot);
@@ -301,7 +361,7 @@ fn vq_c16_slot_skip_until() {
 //@ fn Slot::consume
 //@ fn Slot::read_chunk
 #[kani::proof]
-#[kani::unwind(10)]
+#[kani::unwind(3)]
 fn vq_c16_slot_consume_read_chunk() {
     let mut slot = any_slot();
     let old = view(&slot);
@@ -310,17 +370,16 @@ fn vq_c16_slot_consume_read_chunk() {
     let use_consume: bool = kani::any();
     let watermark: usize = kani::any();
 
-    let chunk: BytesMut = if use_consume {
-        slot.consume()
+    let (chunk, owned): (BytesMut, bool) = if use_consume {
+        (slot.consume(), true)
     } else {
         match slot.read_chunk(watermark) {
-            Ok(reader::storage::Chunk::BytesMut(c)) => c,
-            _ => {
-                assert!(false, "C16/slot.read_chunk/returns_owned_bytes");
-                unreachable!()
-            }
+            Ok(reader::storage::Chunk::BytesMut(c)) => (c, true),
+            _ => (BytesMut::new(), false),
         }
     };
+    // (Reassembler::read_chunk relies on it: `let Chunk::BytesMut(chunk) = .. else { assume!(false) }`)
+    assert!(owned, "C16/slot.read_chunk/returns_owned_bytes");
 
     let new = view(&slot);
     let n = chunk.len() as i128;
@@ -363,7 +422,7 @@ fn vq_c16_slot_consume_read_chunk() {
 //@ fn Slot::as_slice
 //@ fn Slot::buffered_len
 #[kani::proof]
-#[kani::unwind(10)]
+#[kani::unwind(3)]
 fn vq_c16_slot_observers() {
     let mut slot = any_slot();
     let v = view(&slot);
